@@ -49,7 +49,7 @@ EXHAUSTIVE = {"quick": False, "thorough": False}
 WATCHDOG = {"quick": 900, "thorough": 7200}
 
 
-LIMITS = [1024, 4096, 2048, 65536]  # serializer limit option, rotated per shard (streams stay far below)
+LIMITS = [4096, 16384, 8192, 65536]  # serializer limit option, rotated per shard; a case whose largest frame is not far below it uses 64 KiB
 
 
 def plan(tier: str, seed: int) -> list[dict]:
@@ -265,6 +265,10 @@ def run_shard(params: dict, ctx) -> None:
             except Exception as exc:  # noqa: BLE001
                 ctx.violation(f"produce:{cfg.name.split('-')[0]}", f"producer raised {type(exc).__name__}: {exc}", {"config": cfg.name, "packets": [repr(p) for p in packets]})
                 continue
+            case_protos = protos
+            if cfg.has_limit and max(b - a for a, b in zip([0] + ends, ends)) > lim // 4:
+                case_protos = (cfg.stream_protocol(65536), cfg.buffered_protocol(65536))  # C01 is about frames within the limit
+                ctx.count("cases_moved_to_64k_limit")
             if it < 3:
                 _oneshot(ctx, cfg, ser, packets)
             interesting = _interesting(cfg, stream, ends)
@@ -275,7 +279,7 @@ def run_shard(params: dict, ctx) -> None:
             chunkings.append(list(ends[:-1]))
             for cuts in chunkings:
                 hint = rng.choice(gen.HINTS)
-                check_one(ctx, cfg, protos, packets, stream, ends, cuts, hint, [params["seed"], it])
+                check_one(ctx, cfg, case_protos, packets, stream, ends, cuts, hint, [params["seed"], it])
             if it == 0 and len(ctx.samples) < 3:
                 ctx.sample({"config": cfg.name, "packets": [repr(p) for p in packets][:3], "stream": stream[:80], "cuts": chunkings[3], "hint": hint})
 
